@@ -218,3 +218,40 @@ def decl_inits(f):
                 if x.get("init") is not None:
                     d[x["name"]] = x["init"]
     return d
+
+
+def depends(ctx, res, other, rules=None, why=""):
+    """Re-run the rules of property `other` (all, or those listed) as part of this property, because this property's
+    behaviour rests on them.  Imported obligations are labelled <this>.D.<other rule>; a violation of the other
+    property is a violation of this one too."""
+    import importlib
+    from mtblcheck import report
+    mod = importlib.import_module("rules." + other.lower())
+    cache = getattr(ctx, "_dep_cache", None)
+    if cache is None:
+        cache = ctx._dep_cache = {}
+    if other not in cache:
+        sub = report.Result(other, ctx.tier)
+        mod.run(ctx, sub)
+        cache[other] = sub
+    sub = cache[other]
+    n = 0
+    for rule, site_, ok, how in sub.obs:
+        if rules is not None and rule not in rules:
+            continue
+        if ok:
+            res.ok("%s.D.%s" % (res.prop, rule), site_, how)
+            n += 1
+    for v in sub.viol:
+        if rules is not None and v["rule"] not in rules:
+            continue
+        res.bad("%s.D.%s" % (res.prop, v["rule"]), v["site"], v["what"] + ((" [%s]" % why) if why else ""), v.get("loc"), v.get("detail"))
+        n += 1
+    if n == 0:
+        raise BrokenAnalysis("dependency %s%s contributed no obligation to %s" % (other, " " + str(sorted(rules)) if rules else "", res.prop))
+    for f in sub.analysed["functions"]:
+        res.analysed["functions"].add(f)
+    for u in sub.analysed["units"]:
+        res.analysed["units"].add(u)
+    res.tables.setdefault("depends_on", []).append({"property": other, "rules": sorted(rules) if rules else "all", "why": why, "obligations": n})
+    return n
